@@ -312,8 +312,15 @@ def decodeDict (std custom : Array String) (buf : Bytes) : Outcome (List (Nat ×
 def keyRank (op : Nat) : Int :=
   if op = opROS then -1 else if op = opSyntheticBase then -2 else op
 
+/-- insertion into a list sorted by rank (after the entries of equal rank) -/
+def insertByRank (e : Nat × List Operand) : List (Nat × List Operand) → List (Nat × List Operand)
+  | [] => [e]
+  | x :: xs => if keyRank e.1 < keyRank x.1 then e :: x :: xs else x :: insertByRank e xs
+
+/-- `sort.Slice(keys, conv(keys[i]) < conv(keys[j]))` (the keys of a map are distinct, so the
+order is determined); a structural insertion sort, so that it evaluates in the kernel -/
 def sortDict (d : List (Nat × List Operand)) : List (Nat × List Operand) :=
-  d.mergeSort fun a b => keyRank a.1 ≤ keyRank b.1
+  d.foldl (fun acc e => insertByRank e acc) []
 
 /-! ## `cffDict.encode` for integer and real operands
 
